@@ -15,12 +15,14 @@ Public:
 
 All enumerations here are deterministic (sorted, no sets iterated).
 """
+import contextlib
 import functools
 import glob
 import itertools
 import json
 import os
 import re
+import signal
 import traceback
 
 from mc import core
@@ -39,6 +41,34 @@ VERBS = list(building.VerbList)
 
 PLAN_DIR = os.path.join(core.REPO, "ioflo", "app", "plan")
 MEM_DIR = "/tmp"          # an existing directory: buildLoad chdir()s to the dir of the current file
+
+
+# ----------------------------------------------------------------------------- robust watchdog
+#
+# core.watchdog arms a one-shot timer.  ioflo's framer runners are generators; when the garbage collector
+# finalises the runners of an earlier build while a later build spins in an allocating loop, the one
+# Watchdog raised by the signal handler can land inside such a finaliser, where Python swallows it
+# ("Exception ignored in generator ...") - and the hung build is never interrupted.  Re-arm periodically.
+
+@contextlib.contextmanager
+def _watchdog(seconds):
+    def _h(signum, frame):
+        raise core.Watchdog("watchdog %.1fs" % seconds)
+    old = signal.signal(signal.SIGALRM, _h)
+    signal.setitimer(signal.ITIMER_REAL, seconds, 0.05)
+    try:
+        yield
+    finally:
+        while True:
+            try:
+                signal.setitimer(signal.ITIMER_REAL, 0)
+                signal.signal(signal.SIGALRM, old)
+                break
+            except core.Watchdog:
+                continue
+
+
+core.watchdog = _watchdog      # real.build_text / real.run look it up at call time
 
 
 # ----------------------------------------------------------------------------- probe doer
